@@ -55,6 +55,67 @@ Theorem pool_bound_fixed :
 Proof. exact C15Proofs.pool_bound_fixed_lemma. Qed.
 Print Assumptions pool_bound_fixed.
 
+(* (1b) the normalizer. A round lists ALL tracked workers (initing or connected,
+   errored or not) and requests min(min()+Warm, Max) - tracked forks, never
+   more than the free slots it can see ... *)
+Theorem normalize_requests_free_slots :
+  forall c s,
+    round_ok c (tracked s) (requests c s ENormalize) = true /\
+    round_within_max c (tracked s) (requests c s ENormalize) = true.
+Proof. exact C15Proofs.normalize_requests_free_slots_lemma. Qed.
+Print Assumptions normalize_requests_free_slots.
+
+(* ... whatever the workers' standing: errors (counted, lost, anonymous), mirror
+   changes and cache expiry change neither the listing nor the request *)
+Theorem normalize_counts_errored_workers :
+  forall fx c s e,
+    status_event e = true ->
+    listing (fst (step fx c s e)) = listing s /\
+    norm_forks c (fst (step fx c s e)) = norm_forks c s.
+Proof. exact C15Proofs.normalize_counts_errored_workers_lemma. Qed.
+Print Assumptions normalize_counts_errored_workers.
+
+(* On a quiescent pool (no fork in flight) a round never drives the tracked
+   count above Max: for every reachable pool [s] and EVERY continuation [r]
+   (the round's requests, starts, completions and failures interleaved with
+   kills, errors, deletions, re-keying ... in any order) in which no more forks
+   are started than the round requested and every insert stems from a started
+   fork, the count stays within Max - or where it already was. *)
+Theorem normalize_round_within_max :
+  forall fx c evs r,
+    let s := run fx c evs in
+    s_inflight s = [] ->
+    (N.of_nat (forkings r) <= norm_forks c s)%N ->
+    s_foreign (run_from fx c s r) = false ->
+    (tracked (run_from fx c s r) <= N.max (c_max c) (tracked s))%N.
+Proof. exact C15Proofs.normalize_round_within_max_lemma. Qed.
+Print Assumptions normalize_round_within_max.
+
+(* "no fork in flight" cannot be dropped: a round that lists while the fork of
+   the previous one is still running requests it again (the known finding) *)
+Theorem normalize_round_inflight_refuted :
+  exists c evs r,
+    let s := run no_fixes c evs in
+    s_inflight s <> [] /\
+    (N.of_nat (forkings r) <= norm_forks c s)%N /\
+    s_foreign (run_from no_fixes c s r) = false /\
+    bound_ok c (tracked s) = true /\
+    bound_ok c (tracked (run_from no_fixes c s r)) = false.
+Proof. exact C15Proofs.normalize_round_inflight_refuted_lemma. Qed.
+Print Assumptions normalize_round_inflight_refuted.
+
+(* a whole round run on its own (listing, all its requests started, then all
+   completed, fresh bootstrap addresses) ends exactly at the target, or where
+   the pool was when that is more *)
+Theorem normalize_round_exact :
+  forall c evs ks,
+    let s := run no_fixes c evs in
+    NoDup ks -> (forall k, In k ks -> wfind k (s_workers s) = None) ->
+    (norm_forks c s <= N.of_nat (length ks))%N ->
+    tracked (run_from no_fixes c s (norm_round c s ks)) = N.max (tracked s) (norm_target c).
+Proof. exact C15Proofs.normalize_round_exact_lemma. Qed.
+Print Assumptions normalize_round_exact.
+
 (* (2) "never forks while at Max": a fork request / start that is accepted saw
    tracked < Max *)
 Theorem never_forks_at_max :
@@ -150,7 +211,7 @@ Proof. exact C15Proofs.groups_exclusive_lemma. Qed.
 Print Assumptions groups_exclusive.
 
 Example poolready_nonvacuous :
-  let c := {| c_min := 2; c_max := 3; c_errkill := 1 |} in
+  let c := {| c_min := 2; c_max := 3; c_errkill := 1; c_warm := 0 |} in
   let up := [EForkReq; EForking 1; ESetIns 1; ERekey 1 11; EForkReq; EForking 2; ESetIns 2] in
   step no_fixes c (run no_fixes c up) ETryReady = (run no_fixes c up, false) /\
   s_poolready (run no_fixes c (up ++ [ERekey 2 12; ETryReady])) = true /\
@@ -163,3 +224,22 @@ Example poolready_nonvacuous :
   s_killlog (run err_multi_fix c (up ++ [ERekey 2 12; EErr 12 true; EErr 12 true])) = [12].
 Proof. exact C15Proofs.poolready_nonvacuous_lemma. Qed.
 Print Assumptions poolready_nonvacuous.
+
+Example normalize_round_nonvacuous :
+  let up := [ENormalize; EForkReq; EForking 1; EForkReq; EForking 2; ESetIns 1; ESetIns 2;
+             ERekey 1 11; ERekey 2 12;
+             EErr 11 true; EErrClear; EErr 12 true; EErrClear] in
+  let c0 := {| c_min := 2; c_max := 3; c_errkill := 3; c_warm := 0 |} in
+  let c1 := {| c_min := 2; c_max := 3; c_errkill := 3; c_warm := 1 |} in
+  tracked (run no_fixes c0 up) = 2%N /\ ready (run no_fixes c0 up) = 0%N /\
+  s_killlog (run no_fixes c0 up) = [] /\ s_inflight (run no_fixes c0 up) = [] /\
+  listing (run no_fixes c0 up) = 2%N /\
+  requests c0 (run no_fixes c0 up) ENormalize = 0%N /\
+  requests c1 (run no_fixes c1 up) ENormalize = 1%N /\
+  tracked (run no_fixes c0 (up ++ norm_round c0 (run no_fixes c0 up) [3; 4; 5])) = 2%N /\
+  tracked (run no_fixes c1 (up ++ norm_round c1 (run no_fixes c1 up) [3; 4; 5])) = 3%N /\
+  round_ok c0 2 2 = false /\
+  tracked (run no_fixes c0 (up ++ ENormalize :: burst_keys [3; 4])) = 4%N /\
+  bound_ok c0 (tracked (run no_fixes c0 (up ++ ENormalize :: burst_keys [3; 4]))) = false.
+Proof. exact C15Proofs.normalize_round_nonvacuous_lemma. Qed.
+Print Assumptions normalize_round_nonvacuous.
